@@ -106,6 +106,18 @@ def pkg_init(draw):
     return {"src": "\n".join(body) + "\n"}
 
 
+@st.composite
+def sync_input(draw):
+    from vlib import hops
+
+    irs = [draw(gen_ir.interface("common", min_params=2, max_params=4, returns=False, min_literal=2)) for _ in range(3)]
+    with core.quiet():
+        c = hops.emit_src("class", gen_ir.to_ir(irs[0]), class_name="ConfigClass")[0]
+        f = hops.emit_src("function", gen_ir.to_ir(irs[1]), function_name="method_name", function_type="static", emit_as_kwonlyargs=False)[0]
+        a = hops.emit_src("argparse", gen_ir.to_ir(irs[2]), function_name="set_cli_args")[0]
+    return {"c": "X = 1\n\n" + c + "\n", "f": f + "\n", "a": "import json\n\n" + a + "\n", "truth": draw(st.sampled_from(["class", "function", "argparse_function"]))}
+
+
 def json_schema_input():
     def build(case):
         from vlib import hops
@@ -155,7 +167,11 @@ def build_job(ctx):
     add("cls", emitted("class"), ["class_parse", "class_to_all"], n)
     add("arg", emitted("argparse", "common"), ["argparse_parse"], max(2, n // 2))
     add("js", json_schema_input(), ["json_parse", "openapi"], max(2, n // 2))
-    add("sql", emitted("sqlalchemy", "common", class_name="Foo", table_name="foo_tbl"), ["sqlalchemy_parse"], max(2, n // 2))
+    add("sql", emitted("sqlalchemy", "common", class_name="Foo", table_name="foo_tbl"), ["sqlalchemy_parse", "sqlalchemy_variants"], max(2, n // 2))
+    from vlib import gen_doc
+
+    add("doc", gen_doc.docstr(footer=False).map(lambda d: {"text": d["text"]}), ["docstring_parse", "docstring_roundtrip"], n)
+    add("sync", sync_input(), ["sync"], max(2, n // 3))
     add("mod", gen_module(), ["infer_imports"], max(2, n // 2), nt=lambda x: x["n"] >= 2)
     for i, x in enumerate(draw_examples(gen_module(), max(2, n // 2), ctx.derived_seed("gen"))):
         for emit in ("class", "function", "argparse", "sqlalchemy", "pydantic"):
